@@ -183,4 +183,12 @@ def replay(ctx, case):
     django_env.setup()
     t = tup(case["term"])
     print(case_extra(to_text(t)))
-    SC.judge(ctx, t, random.Random(0), select, lambda *a: [], "replay", cap=200)
+    dom = None
+    if tz_mode():
+        import datetime as dt
+        from ..gen import rows as RW
+        dom = dict(RW.DOMAIN, d=[None, dt.datetime(2020, 1, 1, 0, 0, 0), dt.datetime(2019, 12, 31, 23, 59, 59),
+                                 dt.datetime(2021, 6, 15, 12, 30, 45), dt.datetime(2000, 2, 29, 6, 7, 8),
+                                 dt.datetime(2020, 1, 31, 21, 0, 0), dt.datetime(2020, 2, 1, 3, 0, 0),
+                                 dt.datetime(2021, 6, 15, 19, 0, 0)])
+    SC.judge(ctx, t, random.Random(0), select, lambda *a: [], "replay", cap=200, domain=dom)
